@@ -14,6 +14,7 @@ typedef struct {
     uint64_t hash;             /* hash of the (thread, op, object) sequence = identity of the interleaving */
     unsigned threads;          /* managed threads seen */
     unsigned cond_waits, mutex_blocks, spurious, preemptions;
+    unsigned signals_with_several_waiters, broadcasts_with_several_waiters;   /* wake-ups issued while >= 2 threads waited on the condition: where signal and broadcast differ */
     int deadlock;              /* 1 if the run ended with no runnable thread */
     int livelock;              /* 1 if the step bound was exceeded */
     char blocked[256];         /* on deadlock/livelock: sorted labels of the unfinished threads with what they wait for */
